@@ -19,6 +19,6 @@ PROP = dict(
     harnesses=[
         H(NP, "c17", "c17_fit_v3", "NTPv3 48/52-byte requests (serve, deny): answered with a 1024-byte buffer => answered identically (length, statistics) with a request-sized buffer", timeout=900),
         H(NP, "c17", "c17_fit_v4", "NTPv4 48/52-byte requests: same", timeout=900),
-        H("np_srvnts_h", "c19", "c19_cookies_p2", "NTS time answers never grow: fresh cookies only replace request fields at least as long (shared with C19)", timeout=1800),
+        H("np_srvnts_h", "c19", "c19_cookies_p2", "NTS time answers never grow: fresh cookies only replace request fields at least as long (shared with C19)", timeout=1800, native_check="native::native_short_placeholders_get_no_cookie"),
 ],
 )
